@@ -394,7 +394,7 @@ def make_strategy(tier, k):
 
 
 def worker(k, n, tier, seed, known_buckets, extra):
-    return standard_worker(PROP, make_strategy(tier, k), evaluate, k, n, tier, seed, known_buckets, quick_examples=2400, thorough_examples=40000, shrink_quick=60, shrink_thorough=300)
+    return standard_worker(PROP, make_strategy(tier, k), evaluate, k, n, tier, seed, known_buckets, quick_examples=2400, thorough_examples=150000, shrink_quick=60, shrink_thorough=300)
 
 
 def run(tier, seed, known_buckets):
